@@ -1,6 +1,6 @@
 (* C01 - the outbound byte stream is the protocol header plus whole frames, in order.
    This file only pins statements. *)
-From Amq Require Import Lib.Base Gen.Consts Model.Wire Model.Frames Model.OutBuf Model.Collector Model.Slots Model.Core Model.Loop Spec.FrameBuf Proofs.FrameBuf Proofs.OutBuf Proofs.Wire Proofs.Loop Proofs.CoreContent Proofs.CoreInv Proofs.CoreMore Model.Sys Proofs.Sys.
+From Amq Require Import Lib.Base Gen.Consts Model.Wire Model.Frames Model.OutBuf Model.Collector Model.Slots Model.Core Model.Loop Spec.FrameBuf Proofs.FrameBuf Proofs.OutBuf Proofs.Wire Proofs.Loop Proofs.CoreContent Proofs.CoreInv Proofs.CoreMore Model.Sys Proofs.Sys Lib.RsVal Gen.SrcWrite Proofs.WriteSrc.
 
 (* the write loop, for EVERY behaviour of the transport (short writes of any size, would-block at any offset, an error anywhere): bytes put on the wire followed by bytes kept = bytes that were buffered; the seal flag is untouched *)
 Theorem C01_write_conserves : forall (o : outbuf) (oracle : list wr) (w : bytes) (r : wres) (o' : outbuf) (rest : list wr), write_to_stream o oracle = (w, r, o', rest) -> ob_sealed o' = ob_sealed o /\ match r with | WOk => w ++ ob o' = ob o | WIoErr => ob o' = ob o /\ (exists k : nat, w = firstn k (ob o)) | WStuck => True end.
@@ -19,11 +19,11 @@ Theorem C01_whole_frames : forall fs : list (N * N * bytes), Forall wf_frame fs 
 Proof. exact split_all_frames. Qed.
 
 (* a channel's mailbox is taken from in FIFO order, each buffer appended whole; what is not taken (the loop stops as soon as it finds the out-buffer above the high-water mark) stays in the mailbox, in order, and a re-poll of the channels is owed - nothing is lost or reordered across throttling *)
-Theorem C01_mailbox_fifo : forall (n : N) (bufs : list bytes) (fuel : nat) (c : core) (s : slot), n <> 0 -> alookup n (c_slots c) = Some s -> s_mail s = map MsgSend bufs -> s_mail_tx s = true -> ob_sealed (c_out c) = false -> (length bufs < fuel)%nat -> exists (c' : core) (taken rest : list bytes), chan_readable fuel n c = (OOk, c') /\ bufs = taken ++ rest /\ ob (c_out c') = ob (c_out c) ++ concat taken /\ ob_sealed (c_out c') = false /\ c_phase c' = c_phase c /\ c_qs c' = c_qs c /\ c_high c' = c_high c /\ (forall k : N, k <> n -> alookup k (c_slots c') = alookup k (c_slots c)) /\ (exists s' : slot, alookup n (c_slots c') = Some s' /\ s_mail s' = map MsgSend rest) /\ (rest <> [] -> c_need c' = true /\ c_high c < out_len c').
+Theorem C01_mailbox_fifo : forall (n : N) (bufs : list bytes) (fuel : nat) (c : core) (s : slot), n <> 0 -> alookup n (c_slots c) = Some s -> s_mail s = map MsgSend bufs -> s_mail_tx s = true -> ob_sealed (c_out c) = false -> (Datatypes.length bufs < fuel)%nat -> exists (c' : core) (taken rest : list bytes), chan_readable fuel n c = (OOk, c') /\ bufs = taken ++ rest /\ ob (c_out c') = ob (c_out c) ++ concat taken /\ ob_sealed (c_out c') = false /\ c_phase c' = c_phase c /\ c_qs c' = c_qs c /\ c_high c' = c_high c /\ (forall k : N, k <> n -> alookup k (c_slots c') = alookup k (c_slots c)) /\ (exists s' : slot, alookup n (c_slots c') = Some s' /\ s_mail s' = map MsgSend rest) /\ (rest <> [] -> c_need c' = true /\ c_high c < out_len c').
 Proof. exact mailbox_fifo. Qed.
 
 (* ... and below the mark nothing is left behind: if even with everything appended the out-buffer does not exceed the high-water mark, the whole mailbox is taken in that one wake-up *)
-Theorem C01_mailbox_fifo_below_mark : forall (n : N) (bufs : list bytes) (fuel : nat) (c : core) (s : slot), n <> 0 -> alookup n (c_slots c) = Some s -> s_mail s = map MsgSend bufs -> s_mail_tx s = true -> ob_sealed (c_out c) = false -> (length bufs < fuel)%nat -> N.of_nat (length (ob (c_out c) ++ concat bufs)) <= c_high c -> exists c' : core, chan_readable fuel n c = (OOk, c') /\ ob (c_out c') = ob (c_out c) ++ concat bufs /\ (exists s' : slot, alookup n (c_slots c') = Some s' /\ s_mail s' = []).
+Theorem C01_mailbox_fifo_below_mark : forall (n : N) (bufs : list bytes) (fuel : nat) (c : core) (s : slot), n <> 0 -> alookup n (c_slots c) = Some s -> s_mail s = map MsgSend bufs -> s_mail_tx s = true -> ob_sealed (c_out c) = false -> (Datatypes.length bufs < fuel)%nat -> N.of_nat (Datatypes.length (ob (c_out c) ++ concat bufs)) <= c_high c -> exists c' : core, chan_readable fuel n c = (OOk, c') /\ ob (c_out c') = ob (c_out c) ++ concat bufs /\ (exists s' : slot, alookup n (c_slots c') = Some s' /\ s_mail s' = []).
 Proof. exact mailbox_fifo_below_mark. Qed.
 
 (* a write event of the I/O thread: the bytes written followed by what stays buffered are what was buffered *)
@@ -42,6 +42,10 @@ Proof. exact first_batch_marks. Qed.
 Theorem C01_system_wire_order : forall (answer : N -> N -> N) (bound qcap : N) (progs : N -> list call), 2 <= qcap -> forall (sched : list act) (n : N), let s := yrun answer bound qcap (init_sys progs) sched in yc_srv_closed (y_ch s n) = false -> projc n (y_seen s) ++ projc n (y_outwire s) ++ projc n (y_outbuf s) ++ yc_mail (y_ch s n) = yc_issued (y_ch s n) /\ yc_issued (y_ch s n) ++ yc_prog (y_ch s n) = progs n.
 Proof. exact sys_wire_order. Qed.
 
+(* THE MODEL IS THE SOURCE: Inner::write_to_stream of src/io_loop/mod.rs - the loop that writes the out-buffer to the socket - as translated from the source text on every run (Gen/SrcWrite.v, tools/rs2sm.py: the `while` loop is a recursive function on fuel), for EVERY buffer content and EVERY behaviour of the transport (any sequence of partial writes, would-blocks and errors, as long as the model's oracle does not run out), puts the same bytes on the wire, keeps the same bytes buffered and returns the same result as Model/OutBuf.v's write_to_stream - the function C01_stream_conservation and the write theorems are about. ext_st_model states the io::Write contract (Ok(n) with n at most the slice offered) and OutputBuffer::{drain_written, clear} *)
+Theorem C01_write_source_is_model : forall (stream : val) (o : outbuf) (oracle : list wr) (wire : bytes), snd (fst (fst (write_to_stream o oracle))) <> WStuck -> gen_Inner_write_to_stream ext_model ext_st_model (S (Datatypes.length oracle)) (enc_self (ob o) oracle wire) stream = (let '(ws, r, o', rest) := write_to_stream o oracle in (enc_self (ob o') rest (wire ++ ws), enc_wres r)).
+Proof. exact write_source_is_model. Qed.
+
 (* non-vacuity: three buffers, a transport that takes 2 bytes, blocks, then the rest *)
 Example C01_example :
   fold_left bstep [BAppend [1; 2; 3]; BWrite [Wrote 2; WBlock]; BAppend [4]; BSeal; BAppend [9]; BWrite [Wrote 10]]
@@ -53,12 +57,13 @@ Check C01_write_conserves : forall (o : outbuf) (oracle : list wr) (w : bytes) (
 Check C01_trace_conserves : forall (ops : list bop) (st : list N * outbuf * list N), (let '(wire, b, acc) := st in wire ++ ob b = acc) -> (fix ok (st0 : bytes * outbuf * bytes) (ops0 : list bop) {struct ops0} : Prop := match ops0 with | [] => True | o :: ops' => no_write_failure st0 o /\ ok (bstep st0 o) ops' end) st ops -> let '(wire', b', acc') := fold_left bstep ops st in wire' ++ ob b' = acc'.
 Check C01_append_spec : forall (o : outbuf) (bs : bytes), ob (ob_append o bs) = (if ob_sealed o then ob o else ob o ++ bs) /\ ob_sealed (ob_append o bs) = ob_sealed o.
 Check C01_whole_frames : forall fs : list (N * N * bytes), Forall wf_frame fs -> split_all (concat (map enc3 fs)) = (map enc3 fs, []).
-Check C01_mailbox_fifo : forall (n : N) (bufs : list bytes) (fuel : nat) (c : core) (s : slot), n <> 0 -> alookup n (c_slots c) = Some s -> s_mail s = map MsgSend bufs -> s_mail_tx s = true -> ob_sealed (c_out c) = false -> (length bufs < fuel)%nat -> exists (c' : core) (taken rest : list bytes), chan_readable fuel n c = (OOk, c') /\ bufs = taken ++ rest /\ ob (c_out c') = ob (c_out c) ++ concat taken /\ ob_sealed (c_out c') = false /\ c_phase c' = c_phase c /\ c_qs c' = c_qs c /\ c_high c' = c_high c /\ (forall k : N, k <> n -> alookup k (c_slots c') = alookup k (c_slots c)) /\ (exists s' : slot, alookup n (c_slots c') = Some s' /\ s_mail s' = map MsgSend rest) /\ (rest <> [] -> c_need c' = true /\ c_high c < out_len c').
-Check C01_mailbox_fifo_below_mark : forall (n : N) (bufs : list bytes) (fuel : nat) (c : core) (s : slot), n <> 0 -> alookup n (c_slots c) = Some s -> s_mail s = map MsgSend bufs -> s_mail_tx s = true -> ob_sealed (c_out c) = false -> (length bufs < fuel)%nat -> N.of_nat (length (ob (c_out c) ++ concat bufs)) <= c_high c -> exists c' : core, chan_readable fuel n c = (OOk, c') /\ ob (c_out c') = ob (c_out c) ++ concat bufs /\ (exists s' : slot, alookup n (c_slots c') = Some s' /\ s_mail s' = []).
+Check C01_mailbox_fifo : forall (n : N) (bufs : list bytes) (fuel : nat) (c : core) (s : slot), n <> 0 -> alookup n (c_slots c) = Some s -> s_mail s = map MsgSend bufs -> s_mail_tx s = true -> ob_sealed (c_out c) = false -> (Datatypes.length bufs < fuel)%nat -> exists (c' : core) (taken rest : list bytes), chan_readable fuel n c = (OOk, c') /\ bufs = taken ++ rest /\ ob (c_out c') = ob (c_out c) ++ concat taken /\ ob_sealed (c_out c') = false /\ c_phase c' = c_phase c /\ c_qs c' = c_qs c /\ c_high c' = c_high c /\ (forall k : N, k <> n -> alookup k (c_slots c') = alookup k (c_slots c)) /\ (exists s' : slot, alookup n (c_slots c') = Some s' /\ s_mail s' = map MsgSend rest) /\ (rest <> [] -> c_need c' = true /\ c_high c < out_len c').
+Check C01_mailbox_fifo_below_mark : forall (n : N) (bufs : list bytes) (fuel : nat) (c : core) (s : slot), n <> 0 -> alookup n (c_slots c) = Some s -> s_mail s = map MsgSend bufs -> s_mail_tx s = true -> ob_sealed (c_out c) = false -> (Datatypes.length bufs < fuel)%nat -> N.of_nat (Datatypes.length (ob (c_out c) ++ concat bufs)) <= c_high c -> exists c' : core, chan_readable fuel n c = (OOk, c') /\ ob (c_out c') = ob (c_out c) ++ concat bufs /\ (exists s' : slot, alookup n (c_slots c') = Some s' /\ s_mail s' = []).
 Check C01_stream_write : forall (c : core) (oracle : list wr) (bs : bytes) (wr0 : wres) (ob' : outbuf) (rest : list wr), write_to_stream (c_out c) oracle = (bs, wr0, ob', rest) -> wr0 = WOk -> exists c' : core, handle_event c (EvStream (Some oracle) None) = (OOk, c', bs) /\ bs ++ ob (c_out c') = ob (c_out c) /\ ob_sealed (c_out c') = ob_sealed (c_out c) /\ c_slots c' = c_slots c /\ c_qs c' = c_qs c /\ c_phase c' = c_phase c.
 Check C01_write_interest : forall (l : loop) (outlen outlen' high low : N), loop_inv l outlen -> let '(l', _) := loop_tail l (negb (outlen =? 0)) outlen' high low in loop_inv l' outlen'.
 Check C01_first_batch : forall (l : loop) (outlen outlen' high low : N), loop_inv l outlen -> l_have_written l = false -> l_have_written (fst (loop_tail l (negb (outlen =? 0)) outlen' high low)) = true.
 Check C01_system_wire_order : forall (answer : N -> N -> N) (bound qcap : N) (progs : N -> list call), 2 <= qcap -> forall (sched : list act) (n : N), let s := yrun answer bound qcap (init_sys progs) sched in yc_srv_closed (y_ch s n) = false -> projc n (y_seen s) ++ projc n (y_outwire s) ++ projc n (y_outbuf s) ++ yc_mail (y_ch s n) = yc_issued (y_ch s n) /\ yc_issued (y_ch s n) ++ yc_prog (y_ch s n) = progs n.
+Check C01_write_source_is_model : forall (stream : val) (o : outbuf) (oracle : list wr) (wire : bytes), snd (fst (fst (write_to_stream o oracle))) <> WStuck -> gen_Inner_write_to_stream ext_model ext_st_model (S (Datatypes.length oracle)) (enc_self (ob o) oracle wire) stream = (let '(ws, r, o', rest) := write_to_stream o oracle in (enc_self (ob o') rest (wire ++ ws), enc_wres r)).
 
 Print Assumptions C01_write_conserves.
 Print Assumptions C01_trace_conserves.
@@ -70,4 +75,5 @@ Print Assumptions C01_stream_write.
 Print Assumptions C01_write_interest.
 Print Assumptions C01_first_batch.
 Print Assumptions C01_system_wire_order.
+Print Assumptions C01_write_source_is_model.
 Print Assumptions C01_example.
